@@ -213,6 +213,7 @@ def TABLES():
     out.extend(wait_defs(rpc))
     out.extend(answer_shape_defs(rpc, opt))
     out.extend(handover_defs(xml))
+    out.extend(introspect_defs(xml))
     return out
 
 
@@ -327,6 +328,33 @@ def handover_defs(xml):
             rows.append('(%s, %s, [])' % (lean_str(key), lean_str('?' + type(ex).__name__)))
     out.append('/-- what `except RPCError as err:` makes of the error: (path, constructor, arguments) -- answers given at once / later -/')
     out.append('def rpcErrorAnswers : List (String × String × List String) := [' + ', '.join(rows) + ']')
+    return out
+
+
+# ---------------------------------------------------------------------------------------------------------------------
+# introspection: what `SystemNamespaceRPCInterface._listMethods` keeps per published method.  Extracted by ROLE: the value of
+# the one assignment `<table>[<key>] = <value>` in `_listMethods`; `str(<f>.__doc__)` keeps a text whatever the docstring is
+# (None for an undocumented method, any object a plugin put there), `<f>.__doc__` keeps the object itself.
+# ---------------------------------------------------------------------------------------------------------------------
+def introspect_defs(xml):
+    out = ['/-! introspection: what `_listMethods` keeps as the help of a published method -/']
+    try:
+        f = find_func(xml, 'SystemNamespaceRPCInterface._listMethods')
+        asg = _only([n for n in ast.walk(f) if isinstance(n, ast.Assign) and len(n.targets) == 1 and isinstance(n.targets[0], ast.Subscript)],
+                    'the assignment into the method table')
+        v = asg.value
+        is_doc = lambda e: isinstance(e, ast.Attribute) and e.attr == '__doc__'
+        if isinstance(v, ast.Call) and isinstance(v.func, ast.Name) and v.func.id == 'str' and len(v.args) == 1 and not v.keywords and is_doc(v.args[0]):
+            text = 'true'
+        elif is_doc(v):
+            text = 'false'
+        else:
+            raise ValueError('neither str(<f>.__doc__) nor <f>.__doc__: ' + ast.unparse(v))
+        out.append('/-- SystemNamespaceRPCInterface._listMethods:%d  `%s`: is the help kept as a text (str(...)) rather than the raw `__doc__`? -/'
+                   % (asg.lineno, ast.unparse(asg).replace('\n', ' ')))
+        out.append('def listMethodsStoresText : Bool := %s' % text)
+    except Exception as ex:
+        out.append('-- listMethodsStoresText  SystemNamespaceRPCInterface._listMethods  UNTRANSLATED (%s: %s)' % (type(ex).__name__, str(ex).replace('\n', ' ')))
     return out
 
 
